@@ -804,6 +804,8 @@ fn run(a: &vhcore::Args) -> i32 {
             vhcore::machinery_failure(&format!("enumerator produced {got} histories for `{name}` but the independent count is {closed}"));
         }
     }
+    let mut all = all;
+    let dev_stride = dev_stride_filter(&mut all, &mut rep);
     eprintln!("[c28] generated {} cases in {:.1}s", all.len(), t0.elapsed().as_secs_f64());
     let pool = Pool::new(a.jobs, vhcore::work_dir("C28/run"));
     let n = all.len();
@@ -853,7 +855,7 @@ fn run(a: &vhcore::Args) -> i32 {
     rep.set("plans", json!(counts.iter().map(|(n, g, _)| json!({"space": n, "histories": g})).collect::<Vec<_>>()));
     rep.set("operations_exercised", json!(ex.ops_seen));
     rep.set("children_cpu_seconds", children_cpu_seconds());
-    rep.set("exhaustive", true);
+    rep.set("exhaustive", !dev_stride);
     if thorough {
         rep.cap("StorageVec: depth 4 only over the core alphabet (10 instances per field); the full alphabet (24 per field) to depth 3; populated start only with the core alphabet to depth 3. StorageMap: depth 4 over insert/remove/try_insert, depth 3 with get(k).write/clear added");
     } else {
